@@ -11,7 +11,10 @@ observation of an untouched deep copy of the record taken before any write:
                                  qualifiers and typed annotations (CDS gene functions separately)
   <fmt>-protoclusters / -candidates / -subregions / -regions
                                  same areas, numbering and cross references
-  <fmt>-fixed-point              writing the re-read record gives the identical text
+  <fmt>-area-members             same member genes of every area, same region of every gene
+  <fmt>-fixed-point-content      writing the re-read record gives the same header, sequence and
+                                 feature entries (compared as a multiset)
+  <fmt>-fixed-point-order        ... and in the same order, i.e. the identical text
 
 with <fmt> in {json, gbk}.
 """
@@ -42,10 +45,49 @@ def _parts(location: Any) -> tuple:
     return tuple((int(p.start), int(p.end)) for p in location.parts)
 
 
+def _contained(inner: Any, outer: Any) -> bool:
+    """ every part of `inner` lies within one part of `outer` (plain coordinates) """
+    return all(any(o_start <= i_start and i_end <= o_end for o_start, o_end in _parts(outer))
+               for i_start, i_end in _parts(inner))
+
+
+def _sort_start(location: Any, length: int) -> int:
+    """ the coordinate features are ordered by: the lowest coordinate, or for a location that
+        continues over the origin the (negative) distance of its pre-origin start from the origin """
+    parts = _parts(location)
+    if len(parts) > 1:
+        forward = location.strand != -1
+        ordered = parts if forward else parts[::-1]
+        for i in range(1, len(ordered)):
+            if ordered[i][0] < ordered[i - 1][0]:    # wraps between part i-1 and i
+                return min(p[0] for p in ordered[:i]) - length
+    return min(p[0] for p in parts)
+
+
+def _areas(record: Any) -> list:
+    return (list(record.get_protoclusters()) + list(record.get_candidate_clusters())
+            + list(record.get_subregions()) + list(record.get_regions()))
+
+
+def missing_links(record: Any) -> list[tuple[Any, Any]]:
+    """ (area, cds) pairs where the gene lies inside the area but is not one of its members """
+    out = []
+    for area in _areas(record):
+        members = set(area.cds_children)
+        for cds in record.get_cds_features():
+            if cds not in members and _contained(cds.location, area.location):
+                out.append((area, cds))
+    return out
+
+
 def input_tags(record: Any) -> list[str]:
-    """ Features of the input record that known findings are conditioned on """
+    """ Features of the input record that known findings are conditioned on (plain coordinates
+        and attribute values of the record as built, no function under test involved) """
+    # pylint: disable=too-many-branches
     from antismash.common.secmet.features import Prepeptide
+    from antismash.common.secmet.features.protocluster import SideloadedProtocluster
     tags = set()
+    length = len(record)
     for label, areas in (("proto", record.get_protoclusters()), ("cand", record.get_candidate_clusters()),
                          ("sub", record.get_subregions())):
         seen: dict[tuple, int] = {}
@@ -53,6 +95,21 @@ def input_tags(record: Any) -> list[str]:
             seen[_parts(area.location)] = seen.get(_parts(area.location), 0) + 1
         if any(count > 1 for count in seen.values()):
             tags.add(f"{label}-tie")
+    if any(isinstance(proto, SideloadedProtocluster) for proto in record.get_protoclusters()):
+        tags.add("side-proto")
+    if missing_links(record):
+        tags.add("cds-link-miss")
+    for area in _areas(record):
+        # does the defect of property C08 show on this record? (the real query, used only to
+        # describe the input: it is what add_*/from_biopython use to fill the member lists)
+        wanted = {cds for cds in record.get_cds_features() if _contained(cds.location, area.location)}
+        try:
+            found = set(record.get_cds_features_within_location(area.location))
+        except Exception:  # pylint: disable=broad-except
+            found = set()
+        if wanted != found:
+            tags.add("cds-query-miss")
+            break
     for cds in record.get_cds_features():
         for annotation in cds.gene_functions:
             if not annotation.product and ": " in annotation.description:
@@ -63,8 +120,11 @@ def input_tags(record: Any) -> list[str]:
         if isinstance(motif, Prepeptide):
             if motif.location.strand == -1 and (motif.leader or motif.tail):
                 tags.add("prepeptide-rev")
-            if len(motif.location.parts) > 1:
-                tags.add("prepeptide-exons")
+            parts = _parts(motif.location)
+            if len(parts) > 1 and _sort_start(motif.location, length) < 0:
+                tags.add("prepeptide-origin")
+            if len(motif.location) % 3 or "<" in str(motif.location) or ">" in str(motif.location):
+                tags.add("prepeptide-partial")
     return sorted(tags)
 
 
@@ -77,7 +137,9 @@ def aspects(dump: dict) -> dict[str, Any]:
         kind = key.split(" ", 1)[0]
         if kind == "CDS":
             functions = {"typed": typed["gene_functions"], "class": typed["gene_function"], "quals": []}
-            rest_typed = {k: v for k, v in typed.items() if k not in ("gene_functions", "gene_function")}
+            rest_typed = {k: v for k, v in typed.items() if k not in ("gene_functions", "gene_function", "in_region")}
+            if typed["in_region"] is not None:
+                out.setdefault("area-members", {})[f"region of {key}"] = typed["in_region"]
             rest_quals = []
             for bio_type, location, pairs in quals:
                 kept = []
@@ -95,8 +157,16 @@ def aspects(dump: dict) -> dict[str, Any]:
             kind = "other-features"
         out.setdefault(kind, {})[key] = [quals, typed]
     for name in AREA_ASPECTS:
-        if dump["areas"][name]:
-            out[name] = dump["areas"][name]
+        entries = []
+        for entry in dump["areas"][name]:
+            entry = dict(entry)
+            for member_key in ("cds", "definition_cds"):
+                if member_key in entry:
+                    members = entry.pop(member_key)
+                    out.setdefault("area-members", {})[f"{name} {entry['number']} {member_key}"] = members
+            entries.append(entry)
+        if entries:
+            out[name] = entries
     return out
 
 
@@ -120,6 +190,11 @@ def evaluate(spec: dict) -> tuple[list[tuple[str, bool, str]], dict]:
         info["build_error"] = f"{type(err).__name__}: {err}"
         return results, info
     info["built"] = True
+    if clean.get("relink"):
+        # the state a record has when its genes were added after its areas (as on every re-read):
+        # Record._link_cds_to_parent adds each gene to all areas containing it
+        for area, cds in missing_links(record):
+            area.add_cds(cds)
     info["tags"] = input_tags(record)
     taxon = clean.get("taxon", "bacteria")
     try:
@@ -145,23 +220,61 @@ def evaluate(spec: dict) -> tuple[list[tuple[str, bool, str]], dict]:
             continue
         reader = observe.json_read if fmt == "json" else (lambda text: observe.genbank_read(text, taxon))
         try:
-            after = observe.dump(reader(texts[fmt]))
-            rewritten = (observe.json_text(reader(texts[fmt]), taxon) if fmt == "json"
-                         else observe.genbank_text(reader(texts[fmt])))
+            reread = reader(texts[fmt])
+            # write first: the re-read record is written exactly once before it is observed
+            rewritten = observe.json_text(reread, taxon) if fmt == "json" else observe.genbank_text(reread)
+            after = observe.dump(reread)
             results.append((f"{fmt}-reload", True, ""))
         except Exception:  # pylint: disable=broad-except
             results.append((f"{fmt}-reload", False, traceback.format_exc(limit=8)))
             continue
         found = aspects(after)
         for name in sorted(set(expected) | set(found)):
-            differences = observe.diff(expected.get(name, {}), found.get(name, {}), path=name)
+            differences = []
+            if not observe.same(expected.get(name, {}), found.get(name, {})):
+                differences = observe.diff(expected.get(name, {}), found.get(name, {}), path=name)
+                assert differences, name
             results.append((f"{fmt}-{name}", not differences, "; ".join(differences)))
-        same = rewritten == texts[fmt]
+        first_rest, first_blocks = split_output(texts[fmt], fmt)
+        second_rest, second_blocks = split_output(rewritten, fmt)
+        same_content = first_rest == second_rest and sorted(first_blocks) == sorted(second_blocks)
         detail = ""
-        if not same:
+        if not same_content:
             detail = _first_difference(texts[fmt], rewritten)
-        results.append((f"{fmt}-fixed-point", same, detail))
+        results.append((f"{fmt}-fixed-point-content", same_content, detail))
+        if same_content:
+            same = rewritten == texts[fmt]
+            results.append((f"{fmt}-fixed-point-order", same,
+                            "" if same else "same feature entries in another order:\n"
+                            + _first_difference(texts[fmt], rewritten)))
     return results, info
+
+
+def split_output(text: str, fmt: str) -> tuple[str, list[str]]:
+    """ -> (everything but the feature entries, the feature entries as written) """
+    if fmt == "json":
+        import json
+        data = json.loads(text)
+        blocks = []
+        for record in data["records"]:
+            blocks.extend(json.dumps(feature) for feature in record["features"])
+            record["features"] = len(record["features"])
+        return json.dumps(data), blocks
+    rest: list[str] = []
+    blocks: list[str] = []
+    in_table = False
+    for line in text.splitlines():
+        if line.startswith("FEATURES"):
+            in_table = True
+            rest.append(line)
+        elif in_table and line.startswith("     ") and not line.startswith("      "):
+            blocks.append(line)
+        elif in_table and line.startswith("      "):
+            blocks[-1] += "\n" + line
+        else:
+            in_table = False
+            rest.append(line)
+    return "\n".join(rest), blocks
 
 
 def _first_difference(first: str, second: str) -> str:
@@ -187,13 +300,43 @@ def _case(spec: dict, tags: list[str]) -> dict:
     return case
 
 
+# input features under which an aspect is known to fail on the pinned tree: such cases are counted under
+# their own clause name '<clause>@<tags>' so that they neither hide nor crowd out the others
+RELEVANT = {
+    "protoclusters": ["proto-tie", "side-proto"],
+    "candidates": ["proto-tie"],
+    "subregions": ["sub-tie"],
+    "regions": ["proto-tie", "sub-tie"],
+    "area-members": ["proto-tie", "sub-tie", "cds-link-miss", "cds-query-miss"],
+    "fixed-point-content": ["proto-tie", "sub-tie", "side-proto"],
+    "fixed-point-order": ["prepeptide-rev", "prepeptide-origin", "prepeptide-partial"],
+    "CDS-gene-functions": ["gf-colon"],
+    "CDS": ["note-dup"],
+    "CDS_motif": ["prepeptide-rev", "prepeptide-origin", "prepeptide-partial"],
+}
+
+
+def qualified(clause: str, tags: list[str]) -> str:
+    aspect = clause.split("-", 1)[1]
+    present = [tag for tag in RELEVANT.get(aspect, []) if tag in tags]
+    if clause == "json-CDS":
+        present = []        # the notes are repeated from the second conversion on, i.e. in the GenBank text
+    return f"{clause}@{'+'.join(present)}" if present else clause
+
+
 def run_one(spec: dict, run: Any) -> None:
     results, info = evaluate(spec)
     if not info["built"]:
         return
     case = _case(spec, info["tags"])
     for clause, ok, detail in results:
-        run.check(clause, ok, case, nontrivial=info["nontrivial"], detail=detail)
+        run.check(qualified(clause, info["tags"]), ok, case, nontrivial=info["nontrivial"], detail=detail)
+    if "cds-link-miss" in info["tags"] and not spec.get("relink"):
+        # Record.get_cds_features_within_location missed member genes when the areas were added
+        # (property C08); also check the same record with the links a re-read record would have
+        relinked = dict(spec)
+        relinked["relink"] = 1
+        run_one(relinked, run)
 
 
 def run_shard(shard: dict, run: Any) -> None:
@@ -214,7 +357,37 @@ def replay(case: dict) -> list[str]:
     results, info = evaluate(case)
     if not info["built"]:
         return [f"factory could not build the record: {info.get('build_error')}"]
-    return [f"{clause}: {detail}" for clause, ok, detail in results if not ok]
+    return [f"{qualified(clause, info['tags'])}: {detail}" for clause, ok, detail in results if not ok]
 
 
-FINDING_CLASSES: dict[str, Any] = {}
+def _known(clause: str, case: Any, aspects_: tuple, tags: tuple) -> bool:
+    """ clause is '<fmt>-<aspect>@<tags>' for one of the aspects, and one of `tags` is among the
+        clause's tags and the case's tags """
+    if "@" not in clause or not isinstance(case, dict):
+        return False
+    base, _, suffix = clause.partition("@")
+    if base.split("-", 1)[1] not in aspects_:
+        return False
+    return any(tag in suffix.split("+") and tag in case.get("tags", []) for tag in tags)
+
+
+AREAS = ("protoclusters", "candidates", "subregions", "regions", "area-members", "fixed-point-content")
+
+FINDING_CLASSES: dict[str, Any] = {
+    # areas with identical coordinates tie in CDSCollection.__lt__: bisect_left reverses them on reload
+    "C10-F1": lambda clause, case: _known(clause, case, AREAS, ("proto-tie",)),
+    "C10-F2": lambda clause, case: _known(clause, case, AREAS, ("sub-tie",)),
+    # gene function text '<function> (<tool>) <id>: <description>' is parsed as product '<id>'
+    "C10-F3": lambda clause, case: _known(clause, case, ("CDS-gene-functions",), ("gf-colon",)),
+    # Feature.to_biopython extends the stored note list: every further conversion repeats feature.notes
+    "C10-F4": lambda clause, case: clause.startswith("gbk-") and _known(clause, case, ("CDS",), ("note-dup",)),
+    # prepeptide location is rebuilt from leader+core+tail: not merged on the reverse strand (F5), wrong
+    # part order over the origin (F6, the C09 defect), partial codons / fuzzy ends lost (F7)
+    "C10-F5": lambda clause, case: _known(clause, case, ("CDS_motif", "fixed-point-order"), ("prepeptide-rev",)),
+    "C10-F6": lambda clause, case: _known(clause, case, ("CDS_motif", "fixed-point-order"), ("prepeptide-origin",)),
+    "C10-F7": lambda clause, case: _known(clause, case, ("CDS_motif", "fixed-point-order"), ("prepeptide-partial",)),
+    # member genes missed by Record.get_cds_features_within_location (C08) at creation or on reload
+    "C10-F8": lambda clause, case: _known(clause, case, ("area-members",), ("cds-link-miss", "cds-query-miss")),
+    # SideloadedProtocluster.from_biopython leaves category/core_location/... in the generic qualifiers
+    "C10-F9": lambda clause, case: _known(clause, case, ("protoclusters", "fixed-point-content"), ("side-proto",)),
+}
